@@ -3,6 +3,7 @@ wrappers pass through when no controller is installed).  They cover statements o
 several calls from one thread or nested run-time calls, which the single-execution engines cannot express.
 Each scenario runs in its own thread with a deadline: a scenario that does not finish is a liveness violation."""
 import asyncio
+import collections
 import threading
 import time
 
@@ -573,6 +574,170 @@ def deep_chain(k, is_async):
     return out
 
 
+# ------------------------------------------------------------------------------ C11: setup nodes inside a flagged nested DAG
+def nested_setup_under_flag(k, is_async):
+    """an inner DAG with a setup node (and a second one chained on it), embedded with twz_active=<argument>: over several
+    executions of ONE outer instance with the flag on the setup nodes run once; outer.setup() runs them"""
+    cnt = collections.Counter()
+
+    def load():
+        cnt["load"] += 1
+        return ("model", cnt["load"])
+    lx = tawazi.xn(named(load, "sc_nsl%d" % k), setup=True)
+
+    def index(m):
+        cnt["index"] += 1
+        return ("index", m)
+    ix = tawazi.xn(named(index, "sc_nsi%d" % k), setup=True)
+
+    def score(x, i):
+        cnt["score"] += 1
+        return (x, i)
+    sx = tawazi.xn(named(score, "sc_nss%d" % k))
+
+    def inner(x):
+        return sx(x, ix(lx()))
+    din = tawazi.dag(named(inner, "sc_nsin%d" % k))
+
+    def outer(x, flag):
+        return din(x, twz_active=flag)
+    d = tawazi.dag(named(outer, "sc_nsout%d" % k), is_async=is_async)
+    call = (lambda th: in_thread(lambda: asyncio.run(th()), 10)) if is_async else (lambda th: in_thread(th, 10))
+    out = []
+    sts = []
+    if k % 2:
+        sts.append(call(lambda: d.setup()))
+        if cnt["load"] != 1 or cnt["index"] != 1:
+            out.append("outer.setup() ran the setup nodes of the flagged nested DAG %s times" % dict(cnt))
+    sts.append(call(lambda: d(1, True)))
+    sts.append(call(lambda: d(2, True)))
+    sts.append(call(lambda: d(3, True)))
+    if any(st[0] != "ok" for st in sts):
+        return ["flagged nested DAG with setup nodes: %r" % ([st for st in sts if st[0] != "ok"][:1],)]
+    if cnt["load"] != 1 or cnt["index"] != 1:
+        out.append("setup nodes of a nested DAG called with twz_active ran %s times over 3 executions of one outer instance" % {k_: v_ for k_, v_ in cnt.items() if k_ != "score"})
+    if cnt["score"] != 3:
+        out.append("the ordinary node of the nested DAG ran %d times over 3 executions" % cnt["score"])
+    return out
+
+
+# ------------------------------------------------------------------------------ C13: a debug node of a nested DAG in a restricted run
+def debug_in_nested_dag_restricted(k):
+    """outer(u, v): inner(a(u), b(v)); inner(x, y): p = prod(x); dbg(p, y).  executor(target=[inner.prod]) with RUN_DEBUG_NODES on
+    runs a -> prod; the debug node may only be pulled in with ALL its inputs: it does not run, or it sees y = b(v)"""
+    seen = []
+    ax = tawazi.xn(named(lambda u: u + 1, "sc_dna%d" % k))
+    bx = tawazi.xn(named(lambda v: v * 10, "sc_dnb%d" % k))
+    px = tawazi.xn(named(lambda x: x * 2, "sc_dnp%d" % k))
+
+    def dbg(p_, y):
+        seen.append((p_, y))
+    dx = tawazi.xn(named(dbg, "sc_dnd%d" % k), debug=True)
+
+    def inner(x, y):
+        p_ = px(x)
+        dx(p_, y)
+        return p_
+    din = tawazi.dag(named(inner, "sc_dnin%d" % k))
+
+    def outer(u, v):
+        return din(ax(u), bx(v))
+    d = tawazi.dag(named(outer, "sc_dnout%d" % k))
+    out = []
+    target = [i_ for i_ in d.exec_nodes if i_.endswith("sc_dnp%d" % k)]
+    if len(target) != 1:
+        return []
+    for flag in (False, True):
+        tawazi.cfg.RUN_DEBUG_NODES = flag
+        try:
+            seen.clear()
+            st = in_thread(lambda: d.executor(target_nodes=target)(1, 2), 10)
+        finally:
+            tawazi.cfg.RUN_DEBUG_NODES = False
+        if st != ("ok", 4):
+            out.append("restricted run of a DAG with a nested debug node (RUN_DEBUG_NODES=%s): %r" % (flag, st))
+        if not flag and seen:
+            out.append("RUN_DEBUG_NODES off: the nested debug node ran in a restricted run")
+        if flag and any(y != 20 for _p, y in seen):
+            out.append("RUN_DEBUG_NODES on, target = the nested DAG's production node: the nested debug node was pulled in although the producer of its input y is not part of the run (it saw y=%r)" % (seen[0][1],))
+    return out
+
+
+# ------------------------------------------------------------------------------ C17: both flavours record the same setup results
+def flavours_record_same_setup_results(k):
+    """one describing function with an active setup node, a setup node chained on it, and a setup node switched off by a
+    constant flag, built in both flavours: after one call (and after setup()) both DAG-level maps hold the same setup entries"""
+    def mk(is_async, tag):
+        lx = tawazi.xn(named(lambda: ("loaded",), "sc_fsl%d%s" % (k, tag)), setup=True)
+        cx = tawazi.xn(named(lambda l: ("chained", l), "sc_fsc%d%s" % (k, tag)), setup=True)
+        ox = tawazi.xn(named(lambda: ("off",), "sc_fso%d%s" % (k, tag)), setup=True)
+        wx = tawazi.xn(named(lambda x, c, o: (x, c, o), "sc_fsw%d%s" % (k, tag)))
+
+        def desc(x):
+            return wx(x, cx(lx()), ox(twz_active=False))
+        return tawazi.dag(named(desc, "sc_fsd%d%s" % (k, tag)), is_async=is_async)
+    out = []
+    for how in ("call", "setup"):
+        ds, da = mk(False, "s" + how[0]), mk(True, "a" + how[0])
+        if how == "call":
+            rs = in_thread(lambda: ds(1), 10)
+            ra = in_thread(lambda: asyncio.run(da(1)), 10)
+        else:
+            rs = in_thread(lambda: ds.setup(), 10)
+            ra = in_thread(lambda: asyncio.run(da.setup()), 10)
+        if rs[0] != "ok" or ra[0] != "ok" or rs[1] != ra[1]:
+            out.append("%s on both flavours of one function: DAG %r, AsyncDAG %r" % (how, rs, ra))
+            continue
+        norm = lambda d_: {i_.replace("a" + how[0], "#").replace("s" + how[0], "#"): v_ for i_, v_ in d_.results.items() if ">!>" not in i_}  # noqa: E731
+        if norm(ds) != norm(da):
+            out.append("after %s the DAG records the setup results %r, the AsyncDAG of the same function %r" % (how, norm(ds), norm(da)))
+    return out
+
+
+# ------------------------------------------------------------------------------ C18 / C17: cache, then restart, in ONE event loop
+def async_cache_then_restart_same_loop(k, tmpdir):
+    """await ex(cache_in=f)(x) and straight after, in the same loop, await d.executor(from_cache=f)(): when the caching run
+    returned its file is complete; the restart executes nothing and returns the caching run's value"""
+    import os as _os
+    _os.makedirs(tmpdir, exist_ok=True)
+    cnt = collections.Counter()
+
+    def a(x):
+        cnt["a"] += 1
+        return SlowPickle(("a", x))
+    ax = tawazi.xn(named(a, "sc_aca%d" % k), resource=Resource.async_thread)
+
+    def b(v):
+        cnt["b"] += 1
+        return ("b", v.v)
+    bx = tawazi.xn(named(b, "sc_acb%d" % k))
+
+    def desc(x):
+        return bx(ax(x))
+    d = tawazi.dag(named(desc, "sc_ac%d" % k), is_async=True)
+    path = _os.path.join(tmpdir, "ac%d.pkl" % k)
+
+    async def main():
+        v1 = await d.executor(cache_in=path)(7)
+        n1 = dict(cnt)
+        v2 = await d.executor(from_cache=path)(7)
+        return v1, n1, v2, dict(cnt)
+    st = in_thread(lambda: asyncio.run(main()), 20)
+    try:
+        _os.remove(path)
+    except OSError:
+        pass
+    if st[0] != "ok":
+        return ["caching run then restart in one event loop: %r" % (st,)]
+    v1, n1, v2, n2 = st[1]
+    out = []
+    if v1 != ("b", ("a", 7)) or v2 != v1:
+        out.append("caching run returned %r, the restart in the same loop %r" % (v1, v2))
+    if n2 != n1:
+        out.append("the restart in the same loop executed nodes again: entries %r after the caching run, %r after the restart" % (n1, n2))
+    return out
+
+
 def run(pid, tier, seed, res):
     n = 2 if tier == "quick" else 8
     for k in range(n):
@@ -609,6 +774,10 @@ def run(pid, tier, seed, res):
         if pid == "C11":
             for fl in (False, True):
                 res.evaluations += 1
+                for msg in nested_setup_under_flag(2 * k + int(fl), fl):
+                    res.hit("C11", "monitor", msg, dict(engine="scenario", kind="monitor", scenario="nested_setup_under_flag", k=k, is_async=fl))
+            for fl in (False, True):
+                res.evaluations += 1
                 for msg in setup_value_identity(2 * k + int(fl), fl):
                     res.hit("C11", "monitor", msg, dict(engine="scenario", kind="monitor", scenario="setup_value_identity", k=k, is_async=fl))
         if pid in ("C16", "C18"):
@@ -616,6 +785,19 @@ def run(pid, tier, seed, res):
             from . import coqrun as _cq
             for msg in concurrent_cache_writes(k, __import__("os").path.join(_cq.BUILD, "cw_%s" % pid)):
                 res.hit(pid, "monitor", msg, dict(engine="scenario", kind="monitor", scenario="concurrent_cache_writes", k=k))
+        if pid == "C13":
+            res.evaluations += 1
+            for msg in debug_in_nested_dag_restricted(k):
+                res.hit("C13", "monitor", msg, dict(engine="scenario", kind="monitor", scenario="debug_in_nested_dag_restricted", k=k))
+        if pid == "C17":
+            res.evaluations += 1
+            for msg in flavours_record_same_setup_results(k):
+                res.hit("C17", "monitor", msg, dict(engine="scenario", kind="monitor", scenario="flavours_record_same_setup_results", k=k))
+        if pid in ("C17", "C18"):
+            res.evaluations += 1
+            from . import coqrun as _cq2
+            for msg in async_cache_then_restart_same_loop(k, __import__("os").path.join(_cq2.BUILD, "ac_%s" % pid)):
+                res.hit(pid, "monitor", msg, dict(engine="scenario", kind="monitor", scenario="async_cache_then_restart_same_loop", k=k))
         if pid in ("C10", "C13"):
             res.evaluations += 1
             for msg in debug_node_in_deactivated_nested_dag(k):
